@@ -598,6 +598,22 @@ func (c *c09) clientSide(base int, s *session) {
 			}
 			return fmt.Errorf("status %d", rec.Code)
 		}},
+		// the client side of the device grant as the example application runs it: the polling interval is what the
+		// provider's answer says (the member is optional, and a peer may say 0 or a negative number); the first poll
+		// is answered access_denied so that the loop ends
+		{"rp.DeviceAuthorization->rp.DeviceAccessToken(interval from the answer)", func() error {
+			resp, err := rp.DeviceAuthorization(ctx, []string{"openid"}, party, nil)
+			if err != nil || resp == nil {
+				return err
+			}
+			c.o.Probe("device-poll-with-the-peer's-interval")
+			h.paths = map[string]*hostile{"/token": {status: 400, body: `{"error":"access_denied"}`, ctype: "application/json"}}
+			defer func() { h.paths = nil }()
+			pctx, cancel := context.WithTimeout(ctx, 30*time.Second)
+			defer cancel()
+			_, err = rp.DeviceAccessToken(pctx, resp.DeviceCode, time.Duration(resp.Interval)*time.Second, party)
+			return err
+		}},
 		{"oauth2 via rp (auto-detect)", func() error {
 			cfg := *party.OAuthConfig()
 			cfg.Endpoint.AuthStyle = oauth2.AuthStyleAutoDetect
@@ -803,7 +819,7 @@ func RunC09(t *testing.T, spec kernel.Spec) *kernel.Outcome {
 		router = spec.Params["router"]
 	}
 	o := inBubble(t, spec, func(o *kernel.Outcome, tape *kernel.Tape) {
-		caps := world.Caps{ClientCredentials: true, TokenExchange: true, Device: true, FromRequest: cs%3 == 0}
+		caps := world.Caps{ClientCredentials: true, TokenExchange: true, Device: true, FromRequest: cs%3 == 0, EndFromRequest: cs%4 < 2, ExchangeVerifier: cs%2 == 1}
 		w, err := world.NewStd(o, tape, world.StdOptions{Router: router, ForceCaps: &caps, AllGrants: true, ForceConfig: func(c *op.Config) {
 			c.AuthMethodPrivateKeyJWT, c.GrantTypeRefreshToken, c.RequestObjectSupported, c.AuthMethodPost = true, true, true, true
 			if cs%5 == 1 { // degenerate user-code configurations
@@ -849,6 +865,11 @@ func hostileAnswers(goodDisc, issuer, idToken string) []hostile {
 		hostile{200, `{"access_token":"a","token_type":"Bearer","expires_in":300}`, "application/json", 0, nil},
 		hostile{200, `{"access_token":"a","token_type":"Bearer","id_token":5}`, "application/json", 0, nil},
 		hostile{200, `{"access_token":"a","token_type":"Bearer","id_token":null,"refresh_token":"r"}`, "application/json", 0, nil},
+		// device authorization answers: no interval, zero, negative, huge
+		hostile{200, `{"device_code":"d","user_code":"u","verification_uri":"https://evil.sim/v","expires_in":300}`, "application/json", 0, nil},
+		hostile{200, `{"device_code":"d","user_code":"u","verification_uri":"https://evil.sim/v","expires_in":300,"interval":0}`, "application/json", 0, nil},
+		hostile{200, `{"device_code":"d","user_code":"u","verification_uri":"https://evil.sim/v","expires_in":-1,"interval":-5}`, "application/json", 0, nil},
+		hostile{200, `{"device_code":"d","user_code":"u","verification_uri":"https://evil.sim/v","expires_in":300,"interval":9223372036854775807}`, "application/json", 0, nil},
 		hostile{200, `{"sub":"u1"}`, "application/json", 0, nil}, hostile{200, `{"sub":"u1","email_verified":"yes","address":"x","updated_at":"now"}`, "application/json", 0, nil})
 	return answers
 }
